@@ -427,6 +427,27 @@ class Inliner:
                 fn.body = nb
                 caller_names = {n.id for n in ast.walk(fn) if isinstance(n, ast.Name)} | {a.arg for a in fn.args.args}
             # nested functions (closures such as the writer's subxml or semiparse)
+        # a helper whose every use was inlined is dead code now: drop its definition so that the tree has the shape it had before the extraction
+        self.removed = []
+        for q, (fn, _) in list(self.helpers.items()):
+            name = q.split(".")[-1]
+            refs = 0
+            for n in ast.walk(self.tree):
+                if n is fn:
+                    continue
+                if (isinstance(n, ast.Attribute) and n.attr == name) or (isinstance(n, ast.Name) and n.id == name):
+                    inside = False
+                    for m in ast.walk(fn):
+                        if m is n:
+                            inside = True
+                            break
+                    if not inside:
+                        refs += 1
+            if refs == 0:
+                holder = self.classes[q.split(".")[0]][0].body if "." in q else self.tree.body
+                if fn in holder and len(holder) > 1:
+                    holder.remove(fn)
+                    self.removed.append(q)
         ast.fix_missing_locations(self.tree)
 
 
@@ -436,4 +457,4 @@ def normalise(tree):
         return tree, {"inlined": [], "kept": [], "note": "no pinned function table: helper inlining disabled"}
     inl = Inliner(tree, pinned)
     inl.run()
-    return tree, {"inlined": inl.inlined, "kept": inl.kept}
+    return tree, {"inlined": inl.inlined, "kept": inl.kept, "removed": getattr(inl, "removed", [])}
